@@ -69,6 +69,10 @@ def run(ctx: Context) -> None:
         ctx.functions.add(q)
     ctx.tables["C10.vocabulary"] = {"queues": {f"{o}.{a}": q for (o, a), q in model.queue_of.items()}, "inlined_functions": sorted(model.relevant),
                                     "shared_attributes": ["sched._stopped", "sched._best_loss", "sched._best_param", "env._curr_best_loss"]}
+    # the agent's generator must be (re)seeded before its thread exists: the seed cascade precedes the session
+    from ..calib import CalibrateView
+    from . import c05
+    ctx.rule(c05.r1_seed_guard, CalibrateView(ctx.prog), "S")
     thorough = ctx.tier == "thorough"
     pl = plans(3, 3) if thorough else plans(2, 2)
     ctx.rule(run_product, ("C10", "C09"), False, pl, "fault-free")
